@@ -6,6 +6,7 @@ import CobaVerif.Model.C06
 
 set_option linter.unusedSimpArgs false
 set_option linter.unusedVariables false
+set_option linter.unusedSectionVars false
 
 namespace Coba.C06
 variable {α : Type}
@@ -1894,5 +1895,890 @@ theorem evaluate_ok' {σ : Type} (c : Config) (L : Learner σ V) (first : Dict (
   rw [hr] at this
   simp only [Option.map_some] at this
   exact ⟨_, Outcome.toOpt_eq_some.mp this⟩
+
+/-! ## batched refinement: one batch of any size -/
+
+omit [DecidableEq V] [RewardFn R V] in
+theorem prepAll_chunk {c : Config} {hs : Bool} {fl : Flags} (hv : Valid c hs fl) (ch : List (Dict (Fld V R)))
+    (hall : ∀ d ∈ ch, WF fl d) : prepAll c fl ch = .ok (ch.map (fun d => rowOf c (view d))) := by
+  induction ch with
+  | nil => rfl
+  | cons d ds ih =>
+    simp only [prepAll, prep_ok (hall d (by simp)) hv, ih (fun d' hd' => hall d' (by simp [hd'])), bind, Except.bind,
+      pure, Except.pure, List.map_cons]
+
+omit [DecidableEq V] [RewardFn R V] in
+theorem predictPhase_eq {σ : Type} (L : Learner σ V) (c : Config) (vs : List (View V R)) (s : σ) :
+    predictPhase L s (vs.map (rowOf c)) = ((predictS L s vs).1, (predictS L s vs).2, vs.map (fun v => Call.predict v.ctx v.acts)) := by
+  have key : ∀ (acc : σ × List (Pred V) × List (Call V)),
+      (vs.map (rowOf c)).foldl (fun (acc : σ × List (Pred V) × List (Call V)) r =>
+        ((L.predict acc.1 r.ctx r.acts).1, acc.2.1 ++ [(L.predict acc.1 r.ctx r.acts).2], acc.2.2 ++ [Call.predict r.ctx r.acts])) acc
+      = ((predictS L acc.1 vs).1, acc.2.1 ++ (predictS L acc.1 vs).2, acc.2.2 ++ vs.map (fun v => Call.predict v.ctx v.acts)) := by
+    induction vs with
+    | nil => intro acc; simp [predictS]
+    | cons v vs ih =>
+      intro acc
+      simp only [List.map_cons, List.foldl_cons]
+      rw [ih]
+      simp [predictS, rowOf]
+  have := key (s, [], [])
+  simpa [predictPhase] using this
+
+omit [DecidableEq V] [RewardFn R V] in
+theorem scorePhase_eq {σ : Type} (L : Learner σ V) (c : Config) (vs : List (View V R)) (s : σ) :
+    scorePhase L s (vs.map (rowOf c)) = ((scoreS L s vs).1, (scoreS L s vs).2, vs.map (fun v => Call.score v.ctx v.acts v.offAct)) := by
+  have key : ∀ (acc : σ × List Rat × List (Call V)),
+      (vs.map (rowOf c)).foldl (fun (acc : σ × List Rat × List (Call V)) r =>
+        ((L.score acc.1 r.ctx r.acts r.offAct).1, acc.2.1 ++ [(L.score acc.1 r.ctx r.acts r.offAct).2],
+          acc.2.2 ++ [Call.score r.ctx r.acts r.offAct])) acc
+      = ((scoreS L acc.1 vs).1, acc.2.1 ++ (scoreS L acc.1 vs).2, acc.2.2 ++ vs.map (fun v => Call.score v.ctx v.acts v.offAct)) := by
+    induction vs with
+    | nil => intro acc; simp [scoreS]
+    | cons v vs ih =>
+      intro acc
+      simp only [List.map_cons, List.foldl_cons]
+      rw [ih]
+      simp [scoreS, rowOf]
+  have := key (s, [], [])
+  simpa [scorePhase] using this
+
+omit [DecidableEq V] [RewardFn R V] in
+theorem learnPhase_eq {σ : Type} (L : Learner σ V) (c : Config) (vs : List (View V R))
+    (args : List (Option V × Option Rat × Option Rat × Dict V)) (s : σ) :
+    learnPhase L s (vs.map (rowOf c)) args
+      = (learnS L s vs args, List.zipWith (fun (v : View V R) a => Call.learn v.ctx a.1 a.2.1 a.2.2.1 a.2.2.2) vs args) := by
+  have key : ∀ (acc : σ × List (Call V)),
+      ((vs.map (rowOf c)).zip args).foldl (fun (acc : σ × List (Call V)) ra =>
+        (L.learn acc.1 ra.1.ctx ra.2.1 ra.2.2.1 ra.2.2.2.1 ra.2.2.2.2,
+          acc.2 ++ [Call.learn ra.1.ctx ra.2.1 ra.2.2.1 ra.2.2.2.1 ra.2.2.2.2])) acc
+      = (learnS L acc.1 vs args, acc.2 ++ List.zipWith (fun (v : View V R) a => Call.learn v.ctx a.1 a.2.1 a.2.2.1 a.2.2.2) vs args) := by
+    induction vs generalizing args with
+    | nil => intro acc; simp [learnS]
+    | cons v vs ih =>
+      intro acc
+      cases args with
+      | nil => simp [learnS]
+      | cons a as =>
+        simp only [List.map_cons, List.zip_cons_cons, List.foldl_cons]
+        rw [ih]
+        simp [learnS, rowOf]
+  have := key (s, [])
+  simpa [learnPhase] using this
+
+theorem evals_chunk {c : Config} (sb : Bool) (vs : List (View V R)) (ps : List (Option (Pred V))) (scs : List (Option Rat))
+    (hw : ∀ v ∈ vs, WFR v) (h1 : sb = true → c.eval = .ips ∧ ∀ p ∈ ps, p = none) (h2 : sb = false → ∀ sc ∈ scs, sc = none) :
+    toOpt (mapM₃ (evalReward sb) (vs.map (rowOf c)) ps scs) = allSome (zip3With (evalRewardS c) vs ps scs) := by
+  induction vs generalizing ps scs with
+  | nil => simp [mapM₃, zip3With, allSome]
+  | cons v vs ih =>
+    cases ps with
+    | nil => simp [mapM₃, zip3With, allSome]
+    | cons p ps =>
+      cases scs with
+      | nil => simp [mapM₃, zip3With, allSome]
+      | cons sc scs =>
+        have hx := evalReward_eq (c := c) (hw v (by simp)) sb p sc
+          (fun h => ⟨(h1 h).1, (h1 h).2 p (by simp)⟩) (fun h => h2 h sc (by simp))
+        have ih' := ih ps scs (fun v' hv' => hw v' (by simp [hv']))
+          (fun h => ⟨(h1 h).1, fun p' hp' => (h1 h).2 p' (by simp [hp'])⟩) (fun h sc' hsc' => h2 h sc' (by simp [hsc']))
+        simp only [List.map_cons, mapM₃, zip3With, allSome, bind, Except.bind, pure, Except.pure]
+        cases hE : evalReward sb (rowOf c v) p sc with
+        | error e => rw [hE] at hx; simp only [toOpt_error] at hx; simp [← hx, allSome]
+        | ok x =>
+          rw [hE] at hx; simp only [toOpt_ok] at hx
+          rw [← hx]
+          cases hR : mapM₃ (evalReward sb) (vs.map (rowOf c)) ps scs with
+          | error e => rw [hR] at ih'; simp only [toOpt_error] at ih'; simp [allSome, ← ih']
+          | ok xs => rw [hR] at ih'; simp only [toOpt_ok] at ih'; simp [allSome, ← ih']
+
+theorem args_chunk {c : Config} (hl : c.learn ≠ .none) (vs : List (View V R)) (ps : List (Option (Pred V)))
+    (hw : ∀ v ∈ vs, WFR v) :
+    toOpt (mapM₂ (learnArgs c) (vs.map (rowOf c)) ps) = allSome (List.zipWith (learnArgsS c) vs ps) := by
+  induction vs generalizing ps with
+  | nil => simp [mapM₂, allSome]
+  | cons v vs ih =>
+    cases ps with
+    | nil => simp [mapM₂, allSome]
+    | cons p ps =>
+      have hx := learnArgs_eq (c := c) (hw v (by simp)) p hl
+      have ih' := ih ps (fun v' hv' => hw v' (by simp [hv']))
+      simp only [List.map_cons, mapM₂, List.zipWith_cons_cons, allSome, bind, Except.bind, pure, Except.pure]
+      cases hE : learnArgs c (rowOf c v) p with
+      | error e => rw [hE] at hx; simp only [toOpt_error] at hx; simp [← hx, allSome]
+      | ok x =>
+        rw [hE] at hx; simp only [toOpt_ok] at hx
+        rw [← hx]
+        cases hR : mapM₂ (learnArgs c) (vs.map (rowOf c)) ps with
+        | error e => rw [hR] at ih'; simp only [toOpt_error] at ih'; simp [allSome, ← ih']
+        | ok xs => rw [hR] at ih'; simp only [toOpt_ok] at ih'; simp [allSome, ← ih']
+
+/-- row assembly on the batched code path -/
+theorem mkRow_eqB {c : Config} {fl : Flags} {v : View V R} (hw : WFR v) (sp : Bool) (p : Option (Pred V)) (er : Option Rat)
+    (hfin : fl.discrete = false → finRewards v = v.rewards)
+    (hnd : nodupKeys (Dict.keys v.extras) = true) (hfr : ∀ kv ∈ v.extras, kv.1 ∉ implicitExclude) :
+    toOpt (mkRow c fl sp true (rowOf c v) p er) = rowSB c fl sp v p er := by
+  have hrc := rewardsCell_eq (c := c) hw hfin
+  simp only [mkRow, rowSB]
+  cases hx : rewardsCell c fl (rowOf c v) with
+  | error e => rw [hx] at hrc; simp only [toOpt_error] at hrc; simp [← hrc, Except.map]
+  | ok rw =>
+    have hrwkeys := rewardsCell_keys hx
+    rw [hx] at hrc; simp only [toOpt_ok] at hrc
+    simp only [← hrc, Except.map, toOpt_ok, Option.map_some]
+    have hex : (rowOf c v).extras = v.extras := rfl
+    rw [hex, foldl_set_fresh _ _ hnd]
+    · simp only [rowOf, outAction, outProb, Bool.true_or, Bool.and_true]
+      first | rfl | simp [List.append_assoc]
+    · intro kv hkv b hb heq
+      have hk := hfr kv hkv
+      apply hk
+      rw [← heq]
+      simp only [List.mem_append] at hb
+      rcases hb with ((((hb | hb) | hb) | hb) | hb) | hb
+      · split at hb <;> simp at hb; subst hb; show _ ∈ implicitExclude; simp [implicitExclude]
+      · split at hb <;> simp at hb; subst hb; show _ ∈ implicitExclude; simp [implicitExclude]
+      · split at hb <;> simp at hb; subst hb; show _ ∈ implicitExclude; simp [implicitExclude]
+      · split at hb <;> simp at hb; subst hb; show _ ∈ implicitExclude; simp [implicitExclude]
+      · rw [hrwkeys b hb]; simp [implicitExclude]
+      · split at hb <;> simp at hb; subst hb; show _ ∈ implicitExclude; simp [implicitExclude]
+
+structure RowOK (fl : Flags) (v : View V R) : Prop where
+  wfr : WFR v
+  fin : fl.discrete = false → finRewards v = v.rewards
+  nd : nodupKeys (Dict.keys v.extras) = true
+  fr : ∀ kv ∈ v.extras, kv.1 ∉ implicitExclude
+
+theorem rows_chunk {c : Config} {fl : Flags} (sp : Bool) (vs : List (View V R)) (ps : List (Option (Pred V)))
+    (evals : List (Option Rat)) (hok : ∀ v ∈ vs, RowOK fl v) :
+    toOpt (mapM₃ (mkRow c fl sp true) (vs.map (rowOf c)) ps evals) = allSome (zip3With (rowSB c fl sp) vs ps evals) := by
+  induction vs generalizing ps evals with
+  | nil => simp [mapM₃, zip3With, allSome]
+  | cons v vs ih =>
+    cases ps with
+    | nil => simp [mapM₃, zip3With, allSome]
+    | cons p ps =>
+      cases evals with
+      | nil => simp [mapM₃, zip3With, allSome]
+      | cons er evals =>
+        have hv := hok v (by simp)
+        have hx := mkRow_eqB (c := c) (fl := fl) hv.wfr sp p er hv.fin hv.nd hv.fr
+        have ih' := ih ps evals (fun v' hv' => hok v' (by simp [hv']))
+        simp only [List.map_cons, mapM₃, zip3With, allSome, bind, Except.bind, pure, Except.pure]
+        cases hE : mkRow c fl sp true (rowOf c v) p er with
+        | error e => rw [hE] at hx; simp only [toOpt_error] at hx; simp [← hx, allSome]
+        | ok x =>
+          rw [hE] at hx; simp only [toOpt_ok] at hx
+          rw [← hx]
+          cases hR : mapM₃ (mkRow c fl sp true) (vs.map (rowOf c)) ps evals with
+          | error e => rw [hR] at ih'; simp only [toOpt_error] at ih'; simp [allSome, ← ih']
+          | ok xs => rw [hR] at ih'; simp only [toOpt_ok] at ih'; simp [allSome, ← ih']
+
+omit [DecidableEq V] [RewardFn R V] in
+@[simp] theorem learnS_nil {σ : Type} (L : Learner σ V) (s : σ) (vs : List (View V R)) : learnS L s vs [] = s := by
+  cases vs <;> rfl
+
+theorem evalsOf_chunk {c : Config} (sb : Bool) (vs : List (View V R)) (ps : List (Option (Pred V))) (scs : List (Option Rat))
+    (hw : ∀ v ∈ vs, WFR v) (h1 : sb = true → c.eval = .ips ∧ ∀ p ∈ ps, p = none) (h2 : sb = false → ∀ sc ∈ scs, sc = none) :
+    toOpt (evalsOf c sb (vs.map (rowOf c)) ps scs)
+      = (if c.eval != .none then (allSome (zip3With (evalRewardS c) vs ps scs)).map (·.map some)
+         else some (List.replicate vs.length none)) := by
+  unfold evalsOf
+  by_cases he : (c.eval != .none) = true
+  · rw [if_pos he, if_pos he, toOpt_map, evals_chunk sb vs ps scs hw h1 h2]
+  · rw [if_neg he, if_neg he]; simp
+
+theorem learnsOf_chunk {c : Config} {σ : Type} (L : Learner σ V) (s : σ) (vs : List (View V R)) (ps : List (Option (Pred V)))
+    (hw : ∀ v ∈ vs, WFR v) :
+    toOpt (learnsOf c L s (vs.map (rowOf c)) ps)
+      = (if c.learn != .none then
+          (allSome (List.zipWith (learnArgsS c) vs ps)).map (fun args =>
+            (learnS L s vs args, List.zipWith (fun (v : View V R) a => Call.learn v.ctx a.1 a.2.1 a.2.2.1 a.2.2.2) vs args))
+         else some (s, [])) := by
+  unfold learnsOf
+  by_cases hl : (c.learn != .none) = true
+  · have hne : c.learn ≠ .none := by simpa [bne] using hl
+    rw [if_pos hl, if_pos hl, toOpt_map, args_chunk hne vs ps hw]
+    cases allSome (List.zipWith (learnArgsS c) vs ps) with
+    | none => rfl
+    | some args => simp [learnPhase_eq]
+  · rw [if_neg hl, if_neg hl]; rfl
+
+omit [DecidableEq V] [RewardFn R V] in
+theorem rowOK_of_WF {fl : Flags} {d : Dict (Fld V R)} (h : WF fl d) (hnd : nodupKeys d.keys = true)
+    (hseq : fl.rwdsIsList = true → fl.discrete = true) : RowOK fl (view d) := by
+  refine ⟨WFR_of_WF h, ?_, nodupKeys_filter d _ hnd, extras_fresh d⟩
+  intro hd
+  apply finRewards_raw h
+  cases hl : fl.rwdsIsList with
+  | false => rfl
+  | true => rw [hseq hl] at hd; cases hd
+
+theorem stepChunk_batched {σ : Type} {c : Config} {fl : Flags} (L : Learner σ V) (s : σ) (ch : List (Dict (Fld V R)))
+    (hall : ∀ d ∈ ch, WF fl d ∧ nodupKeys d.keys = true) (hv : Valid c L.hasScore fl)
+    (hseq : fl.rwdsIsList = true → fl.discrete = true) :
+    toOpt (stepChunk c fl L true s ch) =
+      (specChunk c fl L s (ch.map view)).map (fun r => (r.1, r.2.1, r.2.2.filter (fun o => !o.isEmpty))) := by
+  have hprep := prepAll_chunk hv ch (fun d hd => (hall d hd).1)
+  have hrows : ch.map (fun d => rowOf c (view d)) = (ch.map view).map (rowOf c) := by simp [List.map_map, Function.comp_def]
+  rw [hrows] at hprep
+  have hok : ∀ v ∈ ch.map view, RowOK fl v := by
+    intro v hvm
+    simp only [List.mem_map] at hvm
+    obtain ⟨d, hd, rfl⟩ := hvm
+    exact rowOK_of_WF (hall d hd).1 (hall d hd).2 hseq
+  have hw : ∀ v ∈ ch.map view, WFR v := fun v hvm => (hok v hvm).wfr
+  generalize ch.map view = vs at *
+  unfold stepChunk specChunk
+  rw [hprep]
+  simp only [toOpt_bind, toOpt_map, toOpt_ok, Option.bind_some, shouldPred_eq_needPred, List.length_map]
+  cases hnp : needPred c L.hasScore with
+  | true =>
+    simp only [Bool.not_true, Bool.and_false, Bool.false_eq_true, if_false, if_true, predictPhase_eq, optList, List.nil_append,
+      List.append_nil, List.map_const', List.length_map]
+    rw [evalsOf_chunk false vs _ _ hw (by simp) (by intro _ sc hsc; simp at hsc; exact hsc.2.symm ▸ rfl)]
+    rw [learnsOf_chunk L _ vs _ hw]
+    have hrows := fun evals => rows_chunk (c := c) (fl := fl) true vs (List.map some (predictS L s vs).2) evals hok
+    simp only [hrows]
+    by_cases he : (c.eval != .none) = true <;> by_cases hl : (c.learn != .none) = true <;>
+      simp only [he, hl, if_true, if_false, Bool.false_eq_true] <;>
+      (try cases allSome (zip3With (evalRewardS c) vs (List.map some (predictS L s vs).2) (List.replicate vs.length none))) <;>
+      (try cases allSome (List.zipWith (learnArgsS c) vs (List.map some (predictS L s vs).2))) <;>
+      simp [Option.map_map, Function.comp_def]
+  | false =>
+    simp only [Bool.not_false, Bool.and_true, Bool.false_eq_true, if_false, optList, List.nil_append, List.append_nil,
+      List.map_const', List.length_map]
+    have hrows := fun evals => rows_chunk (c := c) (fl := fl) false vs (List.replicate vs.length none) evals hok
+    cases hsb : (c.eval == EvalMode.ips && L.hasScore) with
+    | true =>
+      have hips : c.eval = .ips := by
+        simp only [Bool.and_eq_true, em_beq, decide_eq_true_eq] at hsb; exact hsb.1
+      simp only [if_true, scorePhase_eq]
+      rw [evalsOf_chunk true vs _ _ hw (by intro _; exact ⟨hips, by intro p hp; simp at hp; exact hp.2.symm ▸ rfl⟩) (by simp)]
+      rw [learnsOf_chunk L _ vs _ hw]
+      simp only [hrows]
+      by_cases hl : (c.learn != .none) = true <;>
+        simp only [hips, hl, if_true, if_false, Bool.false_eq_true] <;>
+        (try cases allSome (zip3With (evalRewardS c) vs (List.replicate vs.length none) (List.map some (scoreS L s vs).2))) <;>
+        (try cases allSome (List.zipWith (learnArgsS c) vs (List.replicate vs.length none))) <;>
+        simp [Option.map_map, Function.comp_def]
+    | false =>
+      simp only [Bool.false_eq_true, if_false, List.nil_append]
+      rw [evalsOf_chunk false vs _ _ hw (by simp) (by intro _ sc hsc; simp at hsc; exact hsc.2.symm ▸ rfl)]
+      rw [learnsOf_chunk L _ vs _ hw]
+      simp only [hrows]
+      by_cases he : (c.eval != .none) = true <;> by_cases hl : (c.learn != .none) = true <;>
+        simp only [he, hl, if_true, if_false, Bool.false_eq_true] <;>
+        (try cases allSome (zip3With (evalRewardS c) vs (List.replicate vs.length none) (List.replicate vs.length none))) <;>
+        (try cases allSome (List.zipWith (learnArgsS c) vs (List.replicate vs.length none))) <;>
+        simp [Option.map_map, Function.comp_def]
+
+theorem runChunks_batched {σ : Type} {c : Config} {fl : Flags} (L : Learner σ V) (hv : Valid c L.hasScore fl)
+    (hseq : fl.rwdsIsList = true → fl.discrete = true) (chs : List (List (Dict (Fld V R))))
+    (hall : ∀ ch ∈ chs, ∀ d ∈ ch, WF fl d ∧ nodupKeys d.keys = true) (s : σ) (cs : List (Call V)) (rs : List (Row V R)) :
+    toOpt (runChunks c fl L true s cs rs chs) =
+      (specRunB c fl L s (chs.map (List.map view))).map
+        (fun r => (r.1, cs ++ r.2.1, rs ++ r.2.2.filter (fun o => !o.isEmpty))) := by
+  induction chs generalizing s cs rs with
+  | nil => simp [runChunks, specRunB]
+  | cons ch rest ih =>
+    have hrest : ∀ ch' ∈ rest, ∀ d ∈ ch', WF fl d ∧ nodupKeys d.keys = true := fun ch' h' => hall ch' (by simp [h'])
+    simp only [List.map_cons, runChunks, specRunB, toOpt_bind]
+    rw [stepChunk_batched L s ch (hall ch (by simp)) hv hseq]
+    cases hsi : specChunk c fl L s (ch.map view) with
+    | none => simp
+    | some r1 =>
+      simp only [Option.map_some, Option.bind_some]
+      rw [ih hrest]
+      cases specRunB c fl L r1.1 (List.map (List.map view) rest) with
+      | none => simp
+      | some r2 => simp [List.append_assoc, List.filter_append]
+
+omit [DecidableEq V] [RewardFn R V] in
+theorem mem_chunksAux {α : Type} (n fuel : Nat) (l : List α) (ch : List α) (h : ch ∈ chunksAux n fuel l) : ∀ x ∈ ch, x ∈ l := by
+  induction fuel generalizing l with
+  | zero => simp [chunksAux] at h
+  | succ k ih =>
+    simp only [chunksAux] at h
+    split at h
+    · cases h
+    · simp only [List.mem_cons] at h
+      rcases h with h | h
+      · subst h; intro x hx; exact List.mem_of_mem_take hx
+      · intro x hx; exact List.mem_of_mem_drop (ih _ h x hx)
+
+/-- refinement of the batched evaluation (any batch size, the last batch may be shorter) -/
+theorem evaluate_refines_batched' {σ : Type} (c : Config) (L : Learner σ V) (n : Nat) (first : Dict (Fld V R))
+    (rest : List (Dict (Fld V R))) (s : σ) (hwf : wfEnv (first :: rest) = true) (hmiss : missingKeys c L.hasScore first = [])
+    (hseq : (mkFlags first).rwdsIsList = true → (mkFlags first).discrete = true) :
+    (evaluate c L (some n) (first :: rest) s).toOpt =
+      (specRunB c (mkFlags first) L s ((chunks n (first :: rest)).map (List.map view))).map
+        (fun r => (r.1, r.2.1, r.2.2.filter (fun o => !o.isEmpty))) := by
+  have hv := valid_of_missing_nil c L.hasScore first hmiss
+  have hall := wfEnv_all hwf
+  have := runChunks_batched L hv hseq (chunks n (first :: rest))
+    (fun ch hch d hd => hall d (mem_chunksAux n _ _ ch hch d hd)) s [] []
+  simp only [evaluate, hmiss, List.isEmpty_nil, Bool.not_true, Bool.false_eq_true, if_false]
+  simp only [List.nil_append] at this
+  rw [← this]
+  cases runChunks c (mkFlags first) L true s [] [] (chunks n (first :: rest)) <;> rfl
+
+/-! ## batched vs un-batched call traces -/
+
+def Call.isScore : Call V → Bool
+  | .score _ _ _ => true
+  | _ => false
+
+def Call.isLearn : Call V → Bool
+  | .learn _ _ _ _ _ => true
+  | _ => false
+
+/-- what a stateful learner sees differently in a batch: row j of a batch is predicted in the state reached by
+predicting rows 0..j-1 of the same batch from the state at the start of the batch — nothing of the batch has been
+learned yet (un-batched, row j would be predicted after rows 0..j-1 were also learned) -/
+theorem predictS_get {σ : Type} (L : Learner σ V) (s : σ) (vs : List (View V R)) (j : Nat) (h : j < vs.length) :
+    (predictS L s vs).2[j]? = some (L.predict (predictS L s (vs.take j)).1 (vs[j]).ctx (vs[j]).acts).2 := by
+  induction vs generalizing s j with
+  | nil => simp at h
+  | cons v vs ih =>
+    cases j with
+    | zero => simp [predictS]
+    | succ k =>
+      simp only [predictS, List.getElem?_cons_succ, List.take_succ_cons, List.getElem_cons_succ]
+      exact ih _ k (by simpa using h)
+
+/-- the learner state in which a batch is learned: after all predictions (and scores) of the batch -/
+theorem specChunk_state {σ : Type} {c : Config} {fl : Flags} (L : Learner σ V) (s : σ) (vs : List (View V R))
+    (r : σ × List (Call V) × List (Row V R)) (h : specChunk c fl L s vs = some r) :
+    ∃ args, ((c.learn = .none ∧ args = []) ∨ (c.learn ≠ .none ∧
+        allSome (List.zipWith (learnArgsS c) vs
+          (if needPred c L.hasScore then (predictS L s vs).2.map some else vs.map (fun _ => none))) = some args)) ∧
+      r.1 = learnS L
+        (if (c.eval == .ips && L.hasScore && !needPred c L.hasScore) then
+            (scoreS L (if needPred c L.hasScore then (predictS L s vs).1 else s) vs).1
+          else (if needPred c L.hasScore then (predictS L s vs).1 else s)) vs args
+      ∧ r.2.1 = (if needPred c L.hasScore then vs.map (fun v => Call.predict v.ctx v.acts) else [])
+          ++ (if (c.eval == .ips && L.hasScore && !needPred c L.hasScore) then vs.map (fun v => Call.score v.ctx v.acts v.offAct) else [])
+          ++ List.zipWith (fun (v : View V R) a => Call.learn v.ctx a.1 a.2.1 a.2.2.1 a.2.2.2) vs args := by
+  unfold specChunk at h
+  simp only [Option.bind_eq_some_iff, Option.map_eq_some_iff] at h
+  obtain ⟨evals, _, args, hargs, rows, _, hr⟩ := h
+  subst hr
+  refine ⟨args, ?_, ?_, ?_⟩
+  · by_cases hl : (c.learn != .none) = true
+    · rw [if_pos hl] at hargs
+      refine Or.inr ⟨by simpa [bne] using hl, ?_⟩
+      cases hn : needPred c L.hasScore <;> simp only [hn, if_true, if_false, Bool.false_eq_true] at hargs ⊢ <;> exact hargs
+    · rw [if_neg hl] at hargs
+      simp only [Option.some.injEq] at hargs
+      exact Or.inl ⟨by simpa [bne] using hl, hargs.symm⟩
+  · cases needPred c L.hasScore <;> cases (c.eval == .ips && L.hasScore) <;> simp
+  · cases needPred c L.hasScore <;> cases (c.eval == .ips && L.hasScore) <;> simp
+
+/-- the learn call of one interaction for a learner answering `f` whatever its state -/
+def learnCallsO (c : Config) (hs : Bool) (f : Option V → Option (List V) → Pred V) (v : View V R) : List (Call V) :=
+  if c.learn != .none then
+    match learnArgsS c v (if needPred c hs then some (f v.ctx v.acts) else none) with
+    | some a => [Call.learn v.ctx a.1 a.2.1 a.2.2.1 a.2.2.2]
+    | none => []
+  else []
+
+omit [DecidableEq V] [RewardFn R V] in
+theorem predictS_oblivious {σ : Type} {L : Learner σ V} {f g} (ho : Oblivious L f g) (vs : List (View V R)) (s : σ) :
+    (predictS L s vs).2 = vs.map (fun v => f v.ctx v.acts) := by
+  induction vs generalizing s with
+  | nil => rfl
+  | cons v vs ih => simp [predictS, ho.pred, ih]
+
+omit [DecidableEq V] [RewardFn R V] in
+theorem zipWith_allSome {α β γ δ : Type} (F : α → β → Option γ) (G : α → γ → δ) (P : α → β) (xs : List α) (args : List γ)
+    (h : allSome (List.zipWith F xs (xs.map P)) = some args) :
+    List.zipWith G xs args = xs.flatMap (fun x => match F x (P x) with
+      | some a => [G x a]
+      | none => []) := by
+  induction xs generalizing args with
+  | nil => simp
+  | cons x xs ih =>
+    simp only [List.map_cons, List.zipWith_cons_cons, allSome] at h
+    cases hF : F x (P x) with
+    | none => rw [hF] at h; simp [allSome] at h
+    | some a =>
+      rw [hF] at h
+      simp only [allSome, Option.map_eq_some_iff] at h
+      obtain ⟨as, has, rfl⟩ := h
+      simp [hF, ih as has]
+
+omit [DecidableEq V] [RewardFn R V] in
+theorem filter_kinds (P S Lc : List (Call V)) (hP : ∀ x ∈ P, Call.isPredict x = true) (hS : ∀ x ∈ S, Call.isScore x = true)
+    (hL : ∀ x ∈ Lc, Call.isLearn x = true) :
+    (P ++ S ++ Lc).filter Call.isPredict = P ∧ (P ++ S ++ Lc).filter Call.isScore = S ∧ (P ++ S ++ Lc).filter Call.isLearn = Lc := by
+  have e1 : ∀ x : Call V, Call.isPredict x = true → Call.isScore x = false ∧ Call.isLearn x = false := by
+    intro x; cases x <;> simp [Call.isPredict, Call.isScore, Call.isLearn]
+  have e2 : ∀ x : Call V, Call.isScore x = true → Call.isPredict x = false ∧ Call.isLearn x = false := by
+    intro x; cases x <;> simp [Call.isPredict, Call.isScore, Call.isLearn]
+  have e3 : ∀ x : Call V, Call.isLearn x = true → Call.isPredict x = false ∧ Call.isScore x = false := by
+    intro x; cases x <;> simp [Call.isPredict, Call.isScore, Call.isLearn]
+  refine ⟨?_, ?_, ?_⟩
+  · rw [List.filter_append, List.filter_append, List.filter_eq_self.mpr hP,
+      List.filter_eq_nil_iff.mpr (fun x hx => by simp [(e2 x (hS x hx)).1]),
+      List.filter_eq_nil_iff.mpr (fun x hx => by simp [(e3 x (hL x hx)).1])]
+    simp
+  · rw [List.filter_append, List.filter_append, List.filter_eq_self.mpr hS,
+      List.filter_eq_nil_iff.mpr (fun x hx => by simp [(e1 x (hP x hx)).1]),
+      List.filter_eq_nil_iff.mpr (fun x hx => by simp [(e3 x (hL x hx)).2])]
+    simp
+  · rw [List.filter_append, List.filter_append, List.filter_eq_self.mpr hL,
+      List.filter_eq_nil_iff.mpr (fun x hx => by simp [(e1 x (hP x hx)).2]),
+      List.filter_eq_nil_iff.mpr (fun x hx => by simp [(e2 x (hS x hx)).2])]
+    simp
+
+/-- the calls of each kind in a run of the spec, for a learner answering `f`,`g` whatever its state -/
+structure Kinds (c : Config) (hs : Bool) (f : Option V → Option (List V) → Pred V) (vs : List (View V R))
+    (calls : List (Call V)) : Prop where
+  pred : calls.filter Call.isPredict = (if needPred c hs then vs.map (fun v => Call.predict v.ctx v.acts) else [])
+  score : calls.filter Call.isScore =
+    (if (c.eval == .ips && hs && !needPred c hs) then vs.map (fun v => Call.score v.ctx v.acts v.offAct) else [])
+  learn : calls.filter Call.isLearn = vs.flatMap (learnCallsO c hs f)
+
+theorem Kinds.append {c : Config} {hs : Bool} {f : Option V → Option (List V) → Pred V} {vs ws : List (View V R)}
+    {a b : List (Call V)} (h1 : Kinds c hs f vs a) (h2 : Kinds c hs f ws b) : Kinds c hs f (vs ++ ws) (a ++ b) := by
+  refine ⟨?_, ?_, ?_⟩
+  · rw [List.filter_append, h1.pred, h2.pred]; split <;> simp
+  · rw [List.filter_append, h1.score, h2.score]; split <;> simp
+  · rw [List.filter_append, h1.learn, h2.learn]; simp
+
+theorem kinds_of_groups {c : Config} {hs : Bool} {f : Option V → Option (List V) → Pred V} (vs : List (View V R))
+    (lc : List (Call V)) (hL : ∀ x ∈ lc, Call.isLearn x = true) (hlc : lc = vs.flatMap (learnCallsO c hs f)) :
+    Kinds c hs f vs ((if needPred c hs then vs.map (fun v => Call.predict v.ctx v.acts) else [])
+      ++ (if (c.eval == .ips && hs && !needPred c hs) then vs.map (fun v => Call.score v.ctx v.acts v.offAct) else []) ++ lc) := by
+  have := filter_kinds (if needPred c hs then vs.map (fun v => Call.predict v.ctx v.acts) else [])
+    (if (c.eval == .ips && hs && !needPred c hs) then vs.map (fun v => Call.score v.ctx v.acts v.offAct) else []) lc
+    (by intro x hx; split at hx <;> simp at hx; obtain ⟨v, _, rfl⟩ := hx; rfl)
+    (by intro x hx; split at hx <;> simp at hx; obtain ⟨v, _, rfl⟩ := hx; rfl) hL
+  exact ⟨this.1, this.2.1, by rw [this.2.2, hlc]⟩
+
+theorem specRun_kinds {σ : Type} {c : Config} {fl : Flags} {L : Learner σ V} {f g} (ho : Oblivious L f g)
+    (vs : List (View V R)) (s : σ) (r : σ × List (Call V) × List (Row V R)) (h : specRun c fl L s vs = some r) :
+    Kinds c L.hasScore f vs r.2.1 := by
+  induction vs generalizing s r with
+  | nil =>
+    simp only [specRun, Option.some.injEq] at h
+    subst h
+    exact ⟨by simp, by simp, by simp⟩
+  | cons v vs ih =>
+    simp only [specRun, Option.bind_eq_some_iff, Option.map_eq_some_iff] at h
+    obtain ⟨r1, h1, r2, h2, hr⟩ := h
+    subst hr
+    have k2 := ih r1.1 r2 h2
+    obtain ⟨lc, hcs, hlc⟩ := specInter_calls L s v r1 h1
+    have k1 : Kinds c L.hasScore f [v] r1.2.1 := by
+      rw [hcs]
+      have e1 : (if needPred c L.hasScore = true then [Call.predict v.ctx v.acts] else [])
+          = (if needPred c L.hasScore = true then [v].map (fun v => Call.predict v.ctx v.acts) else []) := by simp
+      have e2 : (if (c.eval == EvalMode.ips && L.hasScore && !needPred c L.hasScore) = true then [Call.score v.ctx v.acts v.offAct] else [])
+          = (if (c.eval == EvalMode.ips && L.hasScore && !needPred c L.hasScore) = true then
+              [v].map (fun v => Call.score v.ctx v.acts v.offAct) else []) := by simp
+      rw [e1, e2]
+      apply kinds_of_groups
+      · rcases hlc with ⟨_, h0⟩ | ⟨_, a, _, h0⟩ <;> subst h0 <;> simp [Call.isLearn]
+      · rcases hlc with ⟨hn, h0⟩ | ⟨hn, a, ha, h0⟩
+        · subst h0; simp [learnCallsO, hn]
+        · subst h0
+          have hne : (c.learn != .none) = true := by simpa [bne] using hn
+          rw [ho.pred] at ha
+          simp [learnCallsO, hne, ha]
+    exact Kinds.append k1 k2
+
+theorem specChunk_kinds {σ : Type} {c : Config} {fl : Flags} {L : Learner σ V} {f g} (ho : Oblivious L f g)
+    (vs : List (View V R)) (s : σ) (r : σ × List (Call V) × List (Row V R)) (h : specChunk c fl L s vs = some r) :
+    Kinds c L.hasScore f vs r.2.1 := by
+  obtain ⟨args, hargs, _, hcalls⟩ := specChunk_state L s vs r h
+  rw [hcalls]
+  apply kinds_of_groups
+  · intro x hx
+    rw [List.mem_iff_getElem] at hx
+    obtain ⟨i, hi, rfl⟩ := hx
+    simp [Call.isLearn]
+  · rcases hargs with ⟨hn, h0⟩ | ⟨hn, h0⟩
+    · subst h0
+      have : ∀ v : View V R, learnCallsO c L.hasScore f v = [] := by intro v; simp [learnCallsO, hn]
+      simp [this]
+    · have hne : (c.learn != .none) = true := by simpa [bne] using hn
+      have hps : (if needPred c L.hasScore = true then List.map some (predictS L s vs).2 else List.map (fun _ => none) vs)
+          = vs.map (fun v => if needPred c L.hasScore then some (f v.ctx v.acts) else none) := by
+        rw [predictS_oblivious ho]
+        cases needPred c L.hasScore <;> simp
+      rw [hps] at h0
+      rw [zipWith_allSome (learnArgsS c) (fun (v : View V R) a => Call.learn v.ctx a.1 a.2.1 a.2.2.1 a.2.2.2) _ vs args h0]
+      congr 1
+      funext v
+      simp only [learnCallsO, hne, if_true]
+      cases learnArgsS c v (if needPred c L.hasScore = true then some (f v.ctx v.acts) else none) <;> rfl
+
+theorem specRunB_kinds {σ : Type} {c : Config} {fl : Flags} {L : Learner σ V} {f g} (ho : Oblivious L f g)
+    (chs : List (List (View V R))) (s : σ) (r : σ × List (Call V) × List (Row V R)) (h : specRunB c fl L s chs = some r) :
+    Kinds c L.hasScore f chs.flatten r.2.1 := by
+  induction chs generalizing s r with
+  | nil =>
+    simp only [specRunB, Option.some.injEq] at h
+    subst h
+    exact ⟨by simp, by simp, by simp⟩
+  | cons ch rest ih =>
+    simp only [specRunB, Option.bind_eq_some_iff, Option.map_eq_some_iff] at h
+    obtain ⟨r1, h1, r2, h2, hr⟩ := h
+    subst hr
+    simp only [List.flatten_cons]
+    exact Kinds.append (specChunk_kinds ho ch s r1 h1) (ih r1.1 r2 h2)
+
+/-- a batched evaluation that succeeds is a run of the batched spec -/
+theorem evaluate_ok_specB' {σ : Type} (c : Config) (L : Learner σ V) (n : Nat) (first : Dict (Fld V R))
+    (rest : List (Dict (Fld V R))) (s s' : σ) (calls : List (Call V)) (rows : List (Row V R)) (H : Hyp c L first rest)
+    (h : evaluate c L (some n) (first :: rest) s = .ok (s', calls, rows)) :
+    ∃ full, specRunB c (mkFlags first) L s ((chunks n (first :: rest)).map (List.map view)) = some (s', calls, full)
+      ∧ rows = full.filter (fun o => !o.isEmpty) := by
+  have := evaluate_refines_batched' c L n first rest s H.wf H.valid H.seq
+  rw [h] at this
+  simp only [Outcome.toOpt] at this
+  cases hr : specRunB c (mkFlags first) L s ((chunks n (first :: rest)).map (List.map view)) with
+  | none => rw [hr] at this; simp at this
+  | some r =>
+    rw [hr] at this
+    simp only [Option.map_some, Option.some.injEq, Prod.mk.injEq] at this
+    obtain ⟨h1, h2, h3⟩ := this
+    exact ⟨r.2.2, by rw [h1, h2], h3⟩
+
+/-- for a learner whose answers do not depend on its history the batched run makes exactly the calls of the
+un-batched run; only their interleaving differs (per batch: all predicts, all scores, all learns) -/
+theorem batched_trace_eq_unbatched' {σ : Type} {L : Learner σ V} {f : Option V → Option (List V) → Pred V}
+    {g : Option V → Option (List V) → Option V → Rat} (ho : Oblivious L f g) (c : Config) (n : Nat) (hn : 0 < n)
+    (first : Dict (Fld V R)) (rest : List (Dict (Fld V R))) (s sb su : σ) (cb cu : List (Call V)) (rb ru : List (Row V R))
+    (H : Hyp c L first rest)
+    (hb : evaluate c L (some n) (first :: rest) s = .ok (sb, cb, rb))
+    (hu : evaluate c L none (first :: rest) s = .ok (su, cu, ru)) :
+    cb.filter Call.isPredict = cu.filter Call.isPredict ∧ cb.filter Call.isScore = cu.filter Call.isScore
+      ∧ cb.filter Call.isLearn = cu.filter Call.isLearn := by
+  obtain ⟨fb, hsb, _⟩ := evaluate_ok_specB' c L n first rest s sb cb rb H hb
+  obtain ⟨fu, hsu, _⟩ := evaluate_ok_spec' c L first rest s su cu ru H.wf H.valid H.seq hu
+  have kb := specRunB_kinds ho _ s _ hsb
+  have ku := specRun_kinds ho _ s _ hsu
+  have hfl : ((chunks n (first :: rest)).map (List.map view)).flatten = (first :: rest).map view := by
+    rw [← List.map_flatten, chunks_flatten n hn]
+  rw [hfl] at kb
+  exact ⟨kb.pred.trans ku.pred.symm, kb.score.trans ku.score.symm, kb.learn.trans ku.learn.symm⟩
+
+/-! ## histories -/
+
+theorem runHistory_append {σ : Type} (L : Learner σ V) (s : σ) (pre post : List (Episode V R)) :
+    runHistory L s (pre ++ post) = runHistory L s pre ++ runHistory L (finalState L s pre) post := by
+  induction pre generalizing s with
+  | nil => rfl
+  | cons e es ih => simp only [List.cons_append, runHistory, finalState, ih]
+
+/-- the k-th evaluation of a history is `evaluate` on that evaluation's own config/environment, started in the
+learner state the earlier evaluations left behind: nothing else is carried from one evaluation to the next -/
+theorem evaluations_independent' {σ : Type} (L : Learner σ V) (s : σ) (pre : List (Episode V R)) (e : Episode V R)
+    (post : List (Episode V R)) :
+    (runHistory L s (pre ++ e :: post))[pre.length]? = some (evaluate e.cfg L e.bs e.env (finalState L s pre)) := by
+  rw [runHistory_append]
+  have hl : (runHistory L s pre).length = pre.length := by
+    induction pre generalizing s with
+    | nil => rfl
+    | cons e' es ih => simp [runHistory, ih]
+  rw [List.getElem?_append_right (by omega), hl]
+  simp [runHistory]
+
+/-- two histories that leave the learner in the same state are followed by the same outcome -/
+theorem history_congr' {σ : Type} (L : Learner σ V) (s₁ s₂ : σ) (pre₁ pre₂ : List (Episode V R)) (e : Episode V R)
+    (post₁ post₂ : List (Episode V R)) (h : finalState L s₁ pre₁ = finalState L s₂ pre₂) :
+    (runHistory L s₁ (pre₁ ++ e :: post₁))[pre₁.length]? = (runHistory L s₂ (pre₂ ++ e :: post₂))[pre₂.length]? := by
+  rw [evaluations_independent', evaluations_independent', h]
+
+/-! ## the IPS transform, exactly -/
+
+/-- `reward/probability` for the logged action and `0` for every other action — with exact rationals, for every
+non-zero probability however small (no clipping, no flooring) -/
+theorem ips_reward_spec' (v : View V R) (a : Option V) (r p : Rat) (hr : v.offRwd = some r) (hp : v.offPr = some p) (hp0 : p ≠ 0) :
+    ipsReward v a = some (if v.offAct = a then r / p else 0) := by
+  simp [ipsReward, hr, hp, hp0]
+
+/-- … so that the importance-weighted value times the propensity gives the logged reward back -/
+theorem ips_reward_unclipped' (v : View V R) (r p : Rat) (hr : v.offRwd = some r) (hp : v.offPr = some p) (hp0 : p ≠ 0) :
+    ∃ w, ipsReward v v.offAct = some w ∧ w * p = r := by
+  refine ⟨r / p, by simp [ipsReward, hr, hp, hp0], Rat.div_mul_cancel hp0⟩
+
+/-- the reward cell of an interaction's row is the documented evaluation reward -/
+theorem specInter_reward_cell {σ : Type} {c : Config} {fl : Flags} (L : Learner σ V) (s : σ) (v : View V R)
+    (r : σ × List (Call V) × Row V R) (h : specInter c fl L s v = some r) (hrec : c.rcd "reward" = true) (he : c.eval ≠ .none) :
+    ∃ er, evalRewardS c v (if needPred c L.hasScore then some (L.predict s v.ctx v.acts).2 else none)
+        (if (c.eval == .ips && L.hasScore && !needPred c L.hasScore) then
+          some (L.score (if needPred c L.hasScore then (L.predict s v.ctx v.acts).1 else s) v.ctx v.acts v.offAct).2 else none) = some er
+      ∧ ("reward", Cell.num (some er)) ∈ r.2.2 := by
+  unfold specInter at h
+  simp only [Option.bind_eq_some_iff, Option.map_eq_some_iff] at h
+  obtain ⟨er, her, sc3, _, row, hrow, hr⟩ := h
+  subst hr
+  have hne : (c.eval != .none) = true := by simpa [bne] using he
+  rw [if_pos hne] at her
+  simp only [Option.map_eq_some_iff] at her
+  obtain ⟨x, hx, rfl⟩ := her
+  refine ⟨x, hx, ?_⟩
+  simp only [rowS, Option.map_eq_some_iff] at hrow
+  obtain ⟨rw, _, rfl⟩ := hrow
+  simp [hrec, hne]
+
+/-- score-based IPS evaluation (eval='ips', a learner with `score`, no prediction needed): every interaction asks
+`score(context, actions, logged action)` once and records `score · reward/probability` -/
+theorem score_based_ips' {σ : Type} (c : Config) (L : Learner σ V) (first : Dict (Fld V R)) (rest : List (Dict (Fld V R)))
+    (s s' : σ) (calls : List (Call V)) (rows : List (Row V R)) (H : Hyp c L first rest)
+    (he : c.eval = .ips) (hs : L.hasScore = true) (hnp : needPred c L.hasScore = false) (hrec : c.rcd "reward" = true)
+    (h : evaluate c L none (first :: rest) s = .ok (s', calls, rows)) :
+    ∃ steps : List (σ × List (Call V) × Row V R), steps.length = (first :: rest).length ∧
+      calls = (steps.map (·.2.1)).flatten ∧ rows = (steps.map (·.2.2)).filter (fun o => !o.isEmpty) ∧
+      ∀ vst ∈ ((first :: rest).map view).zip steps,
+        vst.2.2.1.head? = some (Call.score vst.1.ctx vst.1.acts vst.1.offAct) ∧
+        ∃ w, ipsReward vst.1 vst.1.offAct = some w ∧
+          ("reward", Cell.num (some ((L.score vst.2.1 vst.1.ctx vst.1.acts vst.1.offAct).2 * w))) ∈ vst.2.2.2 := by
+  obtain ⟨full, hsp, hrows⟩ := evaluate_ok_spec' c L first rest s s' calls rows H.wf H.valid H.seq h
+  obtain ⟨st, h1, h2, h3, h4⟩ := specRun_steps L _ s _ hsp
+  simp only at h2 h3
+  refine ⟨st, by simpa using h1, h2, by rw [hrows, h3], ?_⟩
+  intro vst hvst
+  obtain ⟨s2, hsi⟩ := h4 vst hvst
+  have hsb : (c.eval == EvalMode.ips && L.hasScore && !needPred c L.hasScore) = true := by rw [hnp, he, hs]; rfl
+  constructor
+  · obtain ⟨lc, hcs, _⟩ := specInter_calls L vst.2.1 vst.1 _ hsi
+    simp only at hcs
+    rw [hcs, hsb, hnp]
+    simp
+  · obtain ⟨er, her, hmem⟩ := specInter_reward_cell L vst.2.1 vst.1 _ hsi hrec (by rw [he]; decide)
+    rw [hsb, hnp] at her
+    simp only [Bool.false_eq_true, if_false, if_true, evalRewardS, he, Option.map_eq_some_iff] at her
+    obtain ⟨w, hw, rfl⟩ := her
+    exact ⟨w, hw, hmem⟩
+
+/-! ## learning_info -/
+
+theorem Dict.update_nil {α : Type} (a : Dict α) : Dict.update a [] = a := rfl
+
+theorem mergeInfo_nil (o : Row V R) : mergeInfo o [] = o := rfl
+
+theorem stepI_silent {σ : Type} (c : Config) (fl : Flags) (L : InfoLearner σ V) (s : σ) (d : Dict (Fld V R)) :
+    stepI c fl L.silent s d = (stepI c fl L s d).map (fun r => (r.1, r.2.1, r.2.2.1, [])) := by
+  unfold stepI
+  have : L.silent.toLearner = L.toLearner := rfl
+  rw [this]
+  cases passOf c fl L.toLearner s d with
+  | error e => rfl
+  | ok k =>
+    simp only [Except.map, Except.ok.injEq, Prod.mk.injEq, true_and]
+    simp only [Pass.info, InfoLearner.silent]
+    cases k.la <;> simp [Dict.update] <;> (by_cases h : shouldPred c L.hasScore = true <;> simp [h])
+
+theorem runI_silent {σ : Type} (c : Config) (fl : Flags) (L : InfoLearner σ V) (env : List (Dict (Fld V R))) (s : σ) :
+    runI c fl L.silent s env = (runI c fl L s env).map (fun r => (r.1, r.2.1, r.2.2.1, r.2.2.2.map (fun _ => []))) := by
+  induction env generalizing s with
+  | nil => rfl
+  | cons d ds ih =>
+    simp only [runI, stepI_silent]
+    cases stepI c fl L s d with
+    | error e => rfl
+    | ok r1 =>
+      simp only [Except.map, Except.bind, ih]
+      cases runI c fl L r1.1 ds with
+      | error e => rfl
+      | ok r2 => rfl
+
+/-- the pass of the `learning_info` model is the loop body of the model the refinement theorems are about -/
+theorem stepChunk_eq_pass {σ : Type} (c : Config) (fl : Flags) (L : Learner σ V) (s : σ) (d : Dict (Fld V R)) :
+    stepChunk c fl L false s [d] =
+      (passOf c fl L s d).map (fun k => (k.learnState L, k.allCalls, [k.out].filter (fun o => !o.isEmpty))) := by
+  unfold stepChunk passOf
+  simp only [prepAll, bind, Except.bind, pure, Except.pure]
+  cases prep c fl d with
+  | error e => rfl
+  | ok r =>
+    simp only [Except.map]
+    cases hsp : shouldPred c L.hasScore with
+    | true =>
+      have hsb : (c.eval == EvalMode.ips && L.hasScore && !true) = false := by simp
+      by_cases he : (c.eval != EvalMode.none) = true <;> by_cases hl : (c.learn != LearnMode.none) = true <;>
+        simp only [hsp, hsb, he, hl, evalsOf, learnsOf, predictPhase, scorePhase, optList, mapM₃, mapM₂, learnPhase, Bool.not_true,
+        Bool.not_false, Bool.and_true, Bool.and_false, if_true, if_false, Bool.false_eq_true, List.foldl_cons, List.foldl_nil,
+        List.length_cons, List.length_nil, List.replicate_succ, List.replicate_zero, List.map_cons, List.map_nil, List.nil_append,
+        List.zip_cons_cons, List.zip_nil_right, Except.map, Except.bind, bind, pure, Except.pure] <;>
+        (try cases evalReward false r (some (L.predict s r.ctx r.acts).2) (none)) <;> (try cases learnArgs c r (some (L.predict s r.ctx r.acts).2)) <;>
+        (try simp only []) <;>
+        ((try simp only [mapM₃, mapM₂, learnPhase, List.foldl_cons, List.foldl_nil, List.map_cons, List.map_nil, List.nil_append, List.append_nil,
+            List.zip_cons_cons, List.zip_nil_right, Except.map, Except.bind, bind, pure, Except.pure, Pass.learnState, Pass.allCalls]) <;> (try (generalize mkRow c fl _ false r _ _ = m; cases m)) <;> simp_all [Pass.learnState, Pass.allCalls])
+    | false =>
+      cases hsb : (c.eval == EvalMode.ips && L.hasScore) with
+      | true =>
+        by_cases he : (c.eval != EvalMode.none) = true <;> by_cases hl : (c.learn != LearnMode.none) = true <;>
+          simp only [hsp, hsb, he, hl, evalsOf, learnsOf, predictPhase, scorePhase, optList, mapM₃, mapM₂, learnPhase, Bool.not_true,
+        Bool.not_false, Bool.and_true, Bool.and_false, if_true, if_false, Bool.false_eq_true, List.foldl_cons, List.foldl_nil,
+        List.length_cons, List.length_nil, List.replicate_succ, List.replicate_zero, List.map_cons, List.map_nil, List.nil_append,
+        List.zip_cons_cons, List.zip_nil_right, Except.map, Except.bind, bind, pure, Except.pure] <;>
+          (try cases evalReward true r (none) (some (L.score s r.ctx r.acts r.offAct).2)) <;> (try cases learnArgs c r (none)) <;>
+          (try simp only []) <;>
+          ((try simp only [mapM₃, mapM₂, learnPhase, List.foldl_cons, List.foldl_nil, List.map_cons, List.map_nil, List.nil_append, List.append_nil,
+            List.zip_cons_cons, List.zip_nil_right, Except.map, Except.bind, bind, pure, Except.pure, Pass.learnState, Pass.allCalls]) <;> (try (generalize mkRow c fl _ false r _ _ = m; cases m)) <;> simp_all [Pass.learnState, Pass.allCalls])
+      | false =>
+        by_cases he : (c.eval != EvalMode.none) = true <;> by_cases hl : (c.learn != LearnMode.none) = true <;>
+          simp only [hsp, hsb, he, hl, evalsOf, learnsOf, predictPhase, scorePhase, optList, mapM₃, mapM₂, learnPhase, Bool.not_true,
+        Bool.not_false, Bool.and_true, Bool.and_false, if_true, if_false, Bool.false_eq_true, List.foldl_cons, List.foldl_nil,
+        List.length_cons, List.length_nil, List.replicate_succ, List.replicate_zero, List.map_cons, List.map_nil, List.nil_append,
+        List.zip_cons_cons, List.zip_nil_right, Except.map, Except.bind, bind, pure, Except.pure] <;>
+          (try cases evalReward false r (none) (none)) <;> (try cases learnArgs c r (none)) <;>
+          (try simp only []) <;>
+          ((try simp only [mapM₃, mapM₂, learnPhase, List.foldl_cons, List.foldl_nil, List.map_cons, List.map_nil, List.nil_append, List.append_nil,
+            List.zip_cons_cons, List.zip_nil_right, Except.map, Except.bind, bind, pure, Except.pure, Pass.learnState, Pass.allCalls]) <;> (try (generalize mkRow c fl _ false r _ _ = m; cases m)) <;> simp_all [Pass.learnState, Pass.allCalls])
+
+theorem runI_eq_runChunks {σ : Type} (c : Config) (fl : Flags) (L : InfoLearner σ V) (env : List (Dict (Fld V R))) (s : σ)
+    (cs : List (Call V)) (rs : List (Row V R)) :
+    runChunks c fl L.toLearner false s cs rs (env.map ([·])) =
+      (runI c fl L s env).map (fun r => (r.1, cs ++ r.2.1, rs ++ r.2.2.1.filter (fun o => !o.isEmpty))) := by
+  induction env generalizing s cs rs with
+  | nil => simp [runChunks, runI, Except.map]
+  | cons d ds ih =>
+    simp only [List.map_cons, runChunks, runI, stepChunk_eq_pass, stepI]
+    cases passOf c fl L.toLearner s d with
+    | error e => rfl
+    | ok k =>
+      simp only [Except.map, Except.bind, ih]
+      cases runI c fl L (k.learnState L.toLearner) ds with
+      | error e => rfl
+      | ok r2 =>
+        simp only [Except.map, Except.ok.injEq, Prod.mk.injEq, true_and]
+        constructor
+        · simp [List.append_assoc]
+        · by_cases he : k.out.isEmpty = true <;> simp [List.filter_cons, he, List.append_assoc]
+
+/-- the model with `learning_info`, seen without the info, is the model the refinement theorems are about -/
+theorem evaluateI_base' {σ : Type} (c : Config) (L : InfoLearner σ V) (env : List (Dict (Fld V R))) (s : σ) :
+    evaluate c L.toLearner none env s = (match evaluateI c L env s with
+      | .ok r => .ok (r.1, r.2.1, r.2.2.2.1.filter (fun o => !o.isEmpty))
+      | .rejected ks => .rejected ks
+      | .crashed e => .crashed e) := by
+  cases env with
+  | nil => rfl
+  | cons first rest =>
+    simp only [evaluate, evaluateI]
+    by_cases hm : (!(missingKeys c L.hasScore first).isEmpty) = true
+    · rw [if_pos hm, if_pos hm]
+    · rw [if_neg hm, if_neg hm, chunks_one, runI_eq_runChunks]
+      cases runI c (mkFlags first) L s (first :: rest) with
+      | error e => rfl
+      | ok r => simp [Except.map, Outcome.ofExcept]
+
+theorem Except.bind_eq_ok {α β : Type} {x : Except Err α} {f : α → Except Err β} {b : β} (h : x.bind f = .ok b) :
+    ∃ a, x = .ok a ∧ f a = .ok b := by
+  cases x with
+  | error e => simp [Except.bind] at h
+  | ok a => exact ⟨a, rfl, h⟩
+
+theorem passOf_s0 {σ : Type} {c : Config} {fl : Flags} {L : Learner σ V} {s : σ} {d : Dict (Fld V R)} {k : Pass σ V R}
+    (h : passOf c fl L s d = .ok k) : k.s0 = s := by
+  unfold passOf at h
+  obtain ⟨r, _, h⟩ := Except.bind_eq_ok h
+  obtain ⟨er, _, h⟩ := Except.bind_eq_ok h
+  obtain ⟨la, _, h⟩ := Except.bind_eq_ok h
+  obtain ⟨out, _, h⟩ := Except.map_eq_ok h
+  subst h
+  rfl
+
+/-- structure of a run with `learning_info`: one pass per interaction, each producing its base row and its info -/
+theorem runI_passes {σ : Type} (c : Config) (fl : Flags) (L : InfoLearner σ V) (env : List (Dict (Fld V R))) (s : σ)
+    (r : σ × List (Call V) × List (Row V R) × List (Dict V)) (h : runI c fl L s env = .ok r) :
+    ∃ passes : List (Pass σ V R), passes.length = env.length ∧ r.2.2.1 = passes.map (·.out) ∧
+      r.2.2.2 = passes.map (Pass.info c L) ∧ ∀ dk ∈ env.zip passes, passOf c fl L.toLearner dk.2.s0 dk.1 = .ok dk.2 := by
+  induction env generalizing s r with
+  | nil =>
+    simp only [runI, Except.ok.injEq] at h
+    subst h
+    exact ⟨[], rfl, rfl, rfl, by simp⟩
+  | cons d ds ih =>
+    simp only [runI, stepI] at h
+    cases hp : passOf c fl L.toLearner s d with
+    | error e => rw [hp] at h; cases h
+    | ok k =>
+      rw [hp] at h
+      simp only [Except.map, Except.bind] at h
+      cases hr : runI c fl L (k.learnState L.toLearner) ds with
+      | error e => rw [hr] at h; cases h
+      | ok r2 =>
+        rw [hr] at h
+        simp only [Except.ok.injEq] at h
+        subst h
+        obtain ⟨ps, h1, h2, h3, h4⟩ := ih _ r2 hr
+        have hs0 : k.s0 = s := passOf_s0 hp
+        refine ⟨k :: ps, by simp [h1], by simp [h2], by simp [h3], ?_⟩
+        intro dk hdk
+        simp only [List.zip_cons_cons, List.mem_cons] at hdk
+        rcases hdk with hdk | hdk
+        · subst hdk; simp only; rw [hs0]; exact hp
+        · exact h4 dk hdk
+
+/-- `learning_info` is local to the interaction: the yielded rows are, interaction by interaction, the row that
+interaction would have had anyway with the info written DURING THAT PASS merged in (`Pass.info`: what `predict` wrote,
+`update`d by what `learn` wrote, both functions of that pass's own learner state and call arguments); nothing leaks
+into another row, and state, calls and base rows are those of the evaluation without any info -/
+theorem info_row_local' {σ : Type} (c : Config) (L : InfoLearner σ V) (first : Dict (Fld V R)) (rest : List (Dict (Fld V R)))
+    (s s' : σ) (calls : List (Call V)) (rows bases : List (Row V R)) (infos : List (Dict V))
+    (h : evaluateI c L (first :: rest) s = .ok (s', calls, rows, bases, infos)) :
+    rows = (List.zipWith mergeInfo bases infos).filter (fun o => !o.isEmpty) ∧
+    evaluate c L.toLearner none (first :: rest) s = .ok (s', calls, bases.filter (fun o => !o.isEmpty)) ∧
+    ∃ passes : List (Pass σ V R), passes.length = (first :: rest).length ∧ bases = passes.map (·.out) ∧
+      infos = passes.map (Pass.info c L) ∧
+      ∀ dk ∈ (first :: rest).zip passes, passOf c (mkFlags first) L.toLearner dk.2.s0 dk.1 = .ok dk.2 := by
+  have hb := evaluateI_base' c L (first :: rest) s
+  rw [h] at hb
+  simp only [evaluateI] at h
+  by_cases hm : (!(missingKeys c L.hasScore first).isEmpty) = true
+  · rw [if_pos hm] at h; cases h
+  · rw [if_neg hm] at h
+    cases hr : runI c (mkFlags first) L s (first :: rest) with
+    | error e => rw [hr] at h; simp [Except.map, Outcome.ofExcept] at h
+    | ok r =>
+      rw [hr] at h
+      simp only [Except.map, Outcome.ofExcept, Outcome.ok.injEq, Prod.mk.injEq] at h
+      obtain ⟨h1, h2, h3, h4, h5⟩ := h
+      obtain ⟨ps, p1, p2, p3, p4⟩ := runI_passes c _ L _ s r hr
+      refine ⟨by rw [← h3, ← h4, ← h5]; rfl, hb, ps, p1, by rw [← h4, p2], by rw [← h5, p3], p4⟩
+
+/-! ## PMF answers -/
+
+/-- on-policy evaluation of a PMF learner: what is learned and what the evaluator works with is exactly SafeLearner's
+parse of the PMF (the action drawn by `choicew` from the wrapper's generator state at that moment, its weight as
+the probability, the kwargs unchanged) -/
+theorem pmf_parsed' {σ : Type} (c : Config) (P : PmfLearner σ V) (dflt : V) (first : Dict (Fld V R)) (rest : List (Dict (Fld V R)))
+    (s s' : σ × Nat) (calls : List (Call V)) (rows : List (Row V R)) (H : Hyp c (wrapPmf P dflt) first rest)
+    (hl : c.learn = .on ∨ c.learn = .ips)
+    (h : evaluate c (wrapPmf P dflt) none (first :: rest) s = .ok (s', calls, rows)) :
+    ∃ steps : List ((σ × Nat) × List (Call V)), steps.length = (first :: rest).length ∧ calls = (steps.map (·.2)).flatten ∧
+      ∀ vst ∈ ((first :: rest).map view).zip steps,
+        ∃ rew, vst.2.2 = [Call.predict vst.1.ctx vst.1.acts,
+          Call.learn vst.1.ctx
+            (some (parsePmf dflt vst.1.acts (P.predict vst.2.1.1 vst.1.ctx vst.1.acts).2.1
+              (P.predict vst.2.1.1 vst.1.ctx vst.1.acts).2.2 vst.2.1.2).1.action)
+            (some rew)
+            (parsePmf dflt vst.1.acts (P.predict vst.2.1.1 vst.1.ctx vst.1.acts).2.1
+              (P.predict vst.2.1.1 vst.1.ctx vst.1.acts).2.2 vst.2.1.2).1.prob
+            (P.predict vst.2.1.1 vst.1.ctx vst.1.acts).2.2] := by
+  obtain ⟨steps, h1, h2, h3⟩ := kwargs_roundtrip' c (wrapPmf P dflt) first rest s s' calls rows H hl h
+  refine ⟨steps, h1, h2, ?_⟩
+  intro vst hvst
+  obtain ⟨rew, _, hc⟩ := h3 vst hvst
+  refine ⟨rew, ?_⟩
+  rw [hc]
+  have hkw : (parsePmf dflt vst.1.acts (P.predict vst.2.1.1 vst.1.ctx vst.1.acts).2.1
+      (P.predict vst.2.1.1 vst.1.ctx vst.1.acts).2.2 vst.2.1.2).1.kw = (P.predict vst.2.1.1 vst.1.ctx vst.1.acts).2.2 := by
+    unfold parsePmf
+    cases vst.1.acts with
+    | none => rfl
+    | some as =>
+      simp only
+      cases Coba.C05.choicew vst.2.1.2 as.length (some (P.predict vst.2.1.1 vst.1.ctx (some as)).2.1) with
+      | error e => rfl
+      | ok r => rfl
+  simp only [wrapPmf, hkw]
 
 end Coba.C06
